@@ -384,6 +384,7 @@ func runC19Cmd(t *testing.T, c simrt.Chooser, o Opts) *Out {
 	// --live goes before the subnet argument
 	argv := sc.World.Argv
 	sc.World.Argv = append(append(append([]string{}, argv[:len(argv)-1]...), "--live", interval.String()), argv[len(argv)-1])
+	sc.World.maxSteps = 3_000_000 // many passes
 	npass := 2 + p.n("npasses", 5)
 	cancelAt := time.Duration(npass)*interval + p.dur("canceloff", 0, interval)
 	sc.World.SigintAt = cancelAt.String()
